@@ -192,7 +192,9 @@ pub fn gen_slot_ex(r: &mut Rng, mode: Mode, force_long: bool) -> SlotCfg {
         // rarely a long axis (tables, buckets and pools inside the crate may have size thresholds);
         // long 2-D grids are square, so that default axes coincide
         let long = force_long || (!small && mode == Mode::C17 && r.chance(1, 10));
-        let nx = if long { r.range(16, if two { 22 } else { 40 }) } else { r.range(min_pts, max_pts.max(min_pts)) };
+        // ... and among the long ones some VERY long ones (tables that only exist above 64 or 128 knots)
+        let very_long = long && !two && (if force_long { r.chance(1, 3) } else { r.chance(1, 4) });
+        let nx = if very_long { r.range(64, 200) } else if long { r.range(16, if two { 22 } else { 40 }) } else { r.range(min_pts, max_pts.max(min_pts)) };
         let ny = if !two { 0 } else if long { nx } else { r.range(min_pts, max_pts.max(min_pts)) };
         // trailing axes
         let n_trailing = match (dimty, two) {
@@ -640,7 +642,19 @@ fn gen_fixed_call(r: &mut Rng, sc: &SlotCtx, cfg: &SlotCfg, faults: &Faults, mod
 }
 
 fn gen_nest(r: &mut Rng, sc: &SlotCtx, cfg: &SlotCfg, faults: &Faults, mode: Mode) -> Act {
-    Act::Nest { call: Box::new(gen_fixed_call(r, sc, cfg, faults, mode)), write_first: r.chance(1, 2) }
+    let call = gen_fixed_call(r, sc, cfg, faults, mode);
+    // a third of the nested calls fail themselves (the strategy returns an error or panics inside
+    // the nested call): the OUTER call must not notice
+    let m = call.batch_len();
+    let plan = if m >= 1 && r.chance(1, 3) {
+        let k = r.below(m);
+        let mut p = vec![Act::Ok; k];
+        p.push(if r.chance(1, 3) { Act::Panic } else { Act::Err(format!("nested-tok-{:08x}", r.next_u64() as u32)) });
+        p
+    } else {
+        vec![]
+    };
+    Act::Nest { call: Box::new(call), write_first: r.chance(1, 2), plan }
 }
 
 /// a re-entrant call for a callback of an operation on `cfg` (C18 fault enumeration)
@@ -880,13 +894,14 @@ pub fn gen_hammer_wide(seed: u64, want: Option<Kind>) -> Generated {
     let seg_keys = |r: &mut Rng, a: &[f64]| -> Vec<f64> {
         let mut segs: Vec<usize> = (0..a.len() - 1).collect();
         r.shuffle(&mut segs);
-        segs.truncate(r.range(8, 24).min(segs.len()));
+        let cap = if a.len() >= 64 { r.range(24, 64) } else { r.range(8, 24) };
+        segs.truncate(cap.min(segs.len()));
         segs.iter().map(|&j| a[j] + (a[j + 1] - a[j]) * *r.pick(&[0.5, 0.25, 0.75])).collect()
     };
     let kx = seg_keys(r, &ax);
     let ky = seg_keys(r, &ay);
     let mut pool: Vec<Op> = vec![];
-    for _ in 0..r.range(8, 16) {
+    for _ in 0..if kx.len() > 24 { r.range(20, 48) } else { r.range(8, 16) } {
         let x = Fb(*r.pick(&kx));
         let y = if two { Fb(*r.pick(&ky)) } else { Fb(0.0) };
         let call = match r.weighted(&[4, 3, 3, 1]) {
@@ -1046,6 +1061,61 @@ pub fn gen_migration(seed: u64) -> Generated {
     let sched = gen_sched(r, n_threads, horizon);
     let build_on_thread = (0..n_slots).map(|_| r.chance(1, 2)).collect();
     Generated { spec: RunSpec { build_on_thread, slots, threads, sched, stall: None, ballast: 0 }, faults }
+}
+
+/// Volume scenario (C17): one interpolator with a built-in strategy, one client; the same small
+/// call is repeated 254..257 or 65 534..65 537 times (counters and generation tags in narrow
+/// integers wrap there, tables fill up, statistics cross thresholds), with plain calls in other
+/// segments before and after. The reference of a repetition is the call made once, alone.
+pub fn gen_volume(seed: u64) -> Generated {
+    let mut r = Rng::new(seed);
+    let r = &mut r;
+    let faults = Faults { oob: false, badbuf: false, strat_err: false, strat_panic: false, crash: false, stall: false, cow: false, badidx: false, mismatch: false, sibling: false, reenter: false, elem_panic: false };
+    let cfg = loop {
+        let c = gen_slot(r, Mode::C17);
+        let lanes: usize = c.trailing().iter().product();
+        if !c.kind.is_probe() && c.elem != Elem::Yf && c.shape[0] >= 4 && lanes >= 1 && lanes <= 4 && c.shape[0] <= 40 {
+            break c;
+        }
+    };
+    let two = cfg.kind.is_2d();
+    let ax = cfg.axis_x();
+    let ay = if two { cfg.axis_y() } else { vec![0.0, 1.0] };
+    let f32ok = cfg.elem == Elem::F32;
+    let fix = |v: f64| if f32ok { v as f32 as f64 } else if cfg.elem == Elem::I64 { v.round() } else { v };
+    let inside = |r: &mut Rng, a: &[f64], j: usize| fix(a[j] + (a[j + 1] - a[j]) * *r.pick(&[0.5, 0.25, 0.75]));
+    let nseg = ax.len() - 1;
+    let nsy = ay.len() - 1;
+    // one small call per segment: a rank-1 batch of 4-6 elements, a single point, or a scalar
+    let mut calls: Vec<Call> = vec![];
+    for j in 0..nseg.min(6) {
+        let jy = j % nsy;
+        let n = r.range(4, 6);
+        let xs: Vec<Fb> = (0..n).map(|_| Fb(inside(r, &ax, j))).collect();
+        let ys: Vec<Fb> = if two { (0..n).map(|_| Fb(inside(r, &ay, jy))).collect() } else { vec![] };
+        calls.push(match r.weighted(&[5, 2, 1]) {
+            0 => Call::Array { q: QSpec { ty: *r.pick(&[QTy::Q1, QTy::Q1, QTy::QDyn]), shape: vec![n], xs, ys, ys_shape: None, lay: Lay::C, ys_lay: Lay::C } },
+            1 => Call::Interp { x: xs[0], y: if two { ys[0] } else { Fb(0.0) } },
+            _ => Call::IndexLeftOf { x: xs[0], y: if two { ys[0] } else { Fb(0.0) } },
+        });
+    }
+    let mk = |call: Call| Op { slot: 0, call, plan: vec![], yield_mask: 0, check_acc: false, elem_fault: 0 };
+    let small = [254u32, 255, 256, 257, 258, 511, 512, 513];
+    let big = [65_534u32, 65_535, 65_536, 65_537];
+    let mut ops = vec![];
+    let nc = calls.len();
+    // touch one segment, repeat another call a lot, then visit every segment again
+    ops.push(mk(calls[0].clone()));
+    ops.push(mk(Call::Repeat { inner: Box::new(calls[r.below(nc)].clone()), times: *r.pick(&big) }));
+    for c in &calls {
+        ops.push(mk(c.clone()));
+    }
+    for _ in 0..r.range(2, 5) {
+        ops.push(mk(Call::Repeat { inner: Box::new(calls[r.below(nc)].clone()), times: *r.pick(&small) }));
+        ops.push(mk(calls[r.below(nc)].clone()));
+        ops.push(mk(calls[r.below(nc)].clone()));
+    }
+    Generated { spec: RunSpec { build_on_thread: vec![false], slots: vec![cfg], threads: vec![ThreadSpec { ops, crash_on_fault: false }], sched: Sched::Serial { order: vec![0] }, stall: None, ballast: 0 }, faults }
 }
 
 /// one complete run specification from one seed
